@@ -94,6 +94,30 @@ CORPUS = [
 ]
 
 
+def alias_family():
+    """exhaustive small family around the key lookup of one field followed by a required int field:
+    type x alias x allow_deserialization_not_by_alias x default x every subset of the keys"""
+    import itertools
+
+    out = []
+    for ft in ("any", "int", "str", ["opt", "int"], ["coll", "list", "int"]):
+        for alias in (None, "A"):
+            for nba in (False, True):
+                for dflt in (None, ["some", None]) if ft == "any" or (isinstance(ft, list) and ft[0] == "opt") else (None,):
+                    cfg = {"allow_deserialization_not_by_alias": True} if nba else {}
+                    fa = [{"name": "a", "alias": alias, "default": dflt, "init": True, "omit": False}, ft]
+                    fz = [{"name": "z", "alias": None, "default": None, "init": True, "omit": False}, "int"]
+                    ty = ["dc", "XF", cfg, [fa, fz] if dflt is None else [fz, fa]]
+                    val = {"any": ["s", "v"], "int": ["i", "3"], "str": ["s", "v"]}.get(ft if isinstance(ft, str) else "", ["i", "3"] if ft[0] == "opt" else ["coll", "list", [["i", "1"]]])
+                    keys = ["a", "z"] + (["A"] if alias else [])
+                    for r in range(len(keys) + 1):
+                        for ks in itertools.combinations(keys, r):
+                            d = ["map", "dict", [[["s", k], (["i", "9"] if k == "z" else val)] for k in ks]]
+                            out.append((ty, d, "mixin", "alias-family"))
+                            out.append((ty, d, "codec", "alias-family"))
+    return out
+
+
 def wrap(c):
     """a witness on a bare shape becomes the single field of a dataclass (C05 is about dataclass deserialization)"""
     ty, d, e, origin = c
@@ -106,6 +130,7 @@ def run(ctx):
     ctx.rule = RULE
     ctx.lean_check("Mashu.Props.C05", THEOREMS, extra_targets=["Mashu.Dispatch"])
     decode.run_decode(ctx, [(t, d, e, "corpus") for t, d, e in CORPUS], judge)
+    decode.run_decode(ctx, alias_family(), judge)
     for mode, cs in decode.fixed_corpus(ctx).items():
         decode.run_decode(ctx, [wrap(c) for c in cs], judge, annot=mode)
     n, depth = (3000, 3) if ctx.tier == "quick" else (50000, 4)
